@@ -363,11 +363,6 @@ static void checkResponse(World &w, const ReqSpec *specs, const unsigned nspecs,
     vf_assert(got == want, "the parts are exactly the satisfiable requested bytes");
 }
 
-#ifdef VF_THOROUGH
-#define ARITH_NONDET(name) (vf_nondet_u64(name) & ((1ULL << 62) - 1))
-#else
-#define ARITH_NONDET(name) vf_nondet_u32(name)
-#endif
 // ---------------------------------------------------------------- entries
 // a requested spec with numbers base+0..base+hi (suffix lengths 0..hi), every shape
 static ReqSpec symbolicSpec(const int64_t base, const unsigned hi)
@@ -408,7 +403,7 @@ extern "C" void c15_single(void) { rangeResponse(0, 1, 1, 6, 7, 3); }
 extern "C" void c15_multi(void) { rangeResponse(0, 2, 5, 5, 5, 3); }
 #else
 extern "C" void c15_single(void) { rangeResponse(0, 1, 1, 5, 6, 3); }
-extern "C" void c15_multi(void) { rangeResponse(0, 2, 4, 4, 3, 2, 1); }
+extern "C" void c15_multi(void) { rangeResponse(0, 2, 4, 4, 3, 3, 1); }
 #endif
 // offsets around 2^31, 2^32 and beyond: the window is the last 4 bytes of the object
 extern "C" void c15_big(void)
@@ -434,10 +429,17 @@ extern "C" void c15_arith(void)
 {
     World w;
     w.setup(0, 0, true, 0);
-    const int64_t clen = (int64_t)ARITH_NONDET("clen");
-    const int64_t off = (int64_t)ARITH_NONDET("specOffset");
-    const int64_t len = (int64_t)ARITH_NONDET("specLength");
-    vf_assume(len >= 1 && off <= clen - len); // canonical: non-empty, inside the object
+    // range position and size: boundary values (case split); how far the transfer has got and the buffer length: symbolic
+#ifdef VF_THOROUGH
+    static const int64_t offs[] = {0, 1, 4095, 4096, (1LL << 31) - 1, 1LL << 31, (1LL << 32) - 1, 1LL << 32, (1LL << 62) - 9000};
+    static const int64_t lens[] = {1, 2, 4095, 4096, 4097, 8192, (1LL << 31) + 1, (1LL << 32) + 4096};
+#else
+    static const int64_t offs[] = {0, (1LL << 32) - 1, (1LL << 62) - 9000};
+    static const int64_t lens[] = {1, 4097, (1LL << 32) + 4096};
+#endif
+    const int64_t off = offs[vf_concretize(vf_range(0, sizeof(offs) / sizeof(*offs) - 1, "specOffsetIdx"))];
+    const int64_t len = lens[vf_concretize(vf_range(0, sizeof(lens) / sizeof(*lens) - 1, "specLengthIdx"))];
+    const int64_t clen = off + len + (int64_t)vf_concretize(vf_range(0, 1, "tail")); // the range ends at or one byte before the end
     w.clen = clen;
     HttpHdrRangeSpec *spec = new HttpHdrRangeSpec;
     spec->offset = off; spec->length = len;
@@ -450,7 +452,9 @@ extern "C" void c15_arith(void)
     vf_assert(cr.spec.offset == off && cr.spec.length == len && cr.elength == clen, "Content-Range states the range and the representation length");
     // an arbitrary reachable point: `sent` bytes of the range are out, at least one is missing
     const bool firstBuffer = vf_concretize(vf_range(0, 1, "firstBuffer"));
-    const int64_t sent = firstBuffer ? 0 : (int64_t)ARITH_NONDET("sent");
+    // up to 8192 bytes after the start of the range, or up to 8192 bytes before its end (symbolic distance)
+    const int64_t dist = (int64_t)vf_range(0, 8192, "distance");
+    const int64_t sent = firstBuffer ? 0 : vf_concretize(vf_range(0, 1, "nearEnd")) ? len - 1 - dist : dist;
     vf_assume(sent >= 0 && sent < len);
     w.http->range_iter.debt(len - sent);
     w.http->out.offset = off + sent;
